@@ -34,6 +34,14 @@ def q_specs():
         s = A.to_spec(A._b(crop="rice.2" if soil == "Paddy" else "maize.2", win="w1s", word="normal", soil=soil))
         s["iwc"] = {"value": ["FC"], "defaults_for_missing": True}
         Q[nm] = s
+    # a custom soil whose only layer is thinner than the compartment list (the compartments below inherit its values), and an unrelated
+    # soil with the SAME number of compartments (anything taken from recycled memory shows in the pair)
+    s_ = A.to_spec(A._b(crop="wheat.15", win="w1s", word="normal", soil="shortlayer", dz="d15x9"))
+    s_["crop"]["kw"] = dict(s_["crop"].get("kw") or {}, Zmax=1.0)
+    Q["short_layer_soil"] = s_
+    s_ = A.to_spec(A._b(crop="wheat.15", win="w1s", word="wet", soil="Clay", dz="d15x9"))
+    s_["crop"]["kw"] = dict(s_["crop"].get("kw") or {}, Zmax=1.0)
+    Q["clay_same_compartment_count"] = s_
     # several dated observations (string dates): anything that passes them through an unordered container shows under other hash seeds
     Q["water_table_series_c"] = A.to_spec(A._b(crop="maize.2", win="w1s", word="dry", gw="falling_c", soil="ClayLoam", dz="deep30"))
     Q["water_table_series_v"] = A.to_spec(A._b(crop="cotton.2", win="w1", word="normal", gw="rising_v", soil="SandyLoam", dz="deep30"))
@@ -61,7 +69,8 @@ def scenarios(tier, seed=0):
             yield {"kind": "alone", "name": n, "hashseed": hs}
     for a, b in itertools.product(names, names):
         yield {"kind": "seq", "ops": [["run", a], ["run", b]], "hashseed": 0}
-        yield {"kind": "seq", "ops": [["construct", a], ["run", b]], "hashseed": 1}
+        if tier != "quick" or (names.index(a) + names.index(b)) % 2 == 0:
+            yield {"kind": "seq", "ops": [["construct", a], ["run", b]], "hashseed": 1}
     if tier != "quick":
         for a, b, c in itertools.product(names, names, names):
             yield {"kind": "seq", "ops": [["run", a], ["init" if (names.index(a) + names.index(b)) % 2 else "run", b], ["run", c]], "hashseed": 4242 if names.index(c) % 2 else 0}
@@ -191,7 +200,7 @@ def describe(tier):
                 "the raw bytes of all four tables = digest of the configuration run alone; a global-state monitor hashes every non-callable module-level object, "
                 "class attribute and default-argument tuple of aquacrop.* and numpy.geterr() after every operation: it must never change (fix-point => isolation for "
                 "histories of any length). Every sequence runs in its own fresh interpreter.",
-        "bound": "operation sequences of length <= " + ("2" if tier == "quick" else "3") + f" over |Q| = {len(q_specs())}, complete",
+        "bound": "operation sequences of length <= " + ("2" if tier == "quick" else "3") + f" over |Q| = {len(q_specs())}" + (": every ordered pair run-then-run, every second ordered pair construct-then-run" if tier == "quick" else ", complete"),
         "exhaustive": True,
         "witnesses": WITNESSES,
         "assumptions": ["bitwise equality on one interpreter/numpy build", "state held outside aquacrop.* modules (pandas/numpy internals) is observed only through its effect on the tables"],
